@@ -252,7 +252,7 @@ def OBLIGATIONS(tier):
     obs = []
     for o1 in range(10):
         obs.append(Ob(f'counter[o1={o1}]', 'counter', timeout=t,
-                      twin=(o1 == 0), slice={'o1': o1, 'n': 4 if big else 3}))
+                      twin=(o1 == 0), slice={'o1': o1, 'n': 3}))
     obs.append(Ob('spawn_union', 'spawn_union', timeout=t))
     obs.append(Ob('no_rerun[rows=0]', 'no_rerun', timeout=t,
                   slice={'nrows': 0, 's1': 0}))
